@@ -14,6 +14,10 @@ CHECKS = {
    technique="TLA+ spec ChunkFile (TLC exhaustive) bound to the real persistence/recovery code by replaying every fault scenario in victim/recovery child processes (RLIMIT_FSIZE, kill points in WriteFileAt) and TLC trace validation (ChunkFileTrace)",
    text="TLC exhausts persist (open temp, write loop with arbitrary short writes, failure, close, rename, cleanup), process death at every step, a second life of the agent, external damage and the recovery scan/load/forward at 3 chunks x lengths 1-3, with NeverTruncatedUpstream, ChunkNamesAreWhole, MarkedSavedOnlyIfWhole, BadFileDoesNotBlock, FailedNotForwarded. Every scenario of the bounded grid (victim length x queue position x byte offset where the write stops x kill point x damaged neighbour x second life) and the fault projection of TLC-simulated behaviours is executed on the real file system: a victim child process persists chunks through the real bufferer under RLIMIT_FSIZE and dies at a verif kill point inside util.WriteFileAt; the parent lists the directory; a second child recovers it with a strict consumer; TLC must explain the listing and every forward/corrupt/read-failure event.",
    note="Crash = process death with the page cache intact (no power loss, no fsync claim); faults produced by RLIMIT_FSIZE and by replacing a file with a directory; lengths 1-3 units at byte units 1/4096 (quick) and 1/512/4096/33000 (thorough)."),
+ "C13": dict(cat="model_checking", ref="5.13", engine="functions",
+   technique="TLA+ reference definition Timestamp (RFC 3339 grammar + instant in integer arithmetic) evaluated by TLC on every (input, output) event recorded from the real parseTime transform over an enumerated input space",
+   text="The real parseTime transform (rebuilt from /repo) is run over the enumerated space - empty, NIL, every truncation/substitution/insertion/deletion of valid timestamps, short garbage, boundary dates x times x zones x fractions, repeated malformed zones on one instance, fractions of 1-6 digits (thorough: all 1,111,110) and sampled 7-9 digits - with panics recovered and logged; TLC validates every event against Timestamp!Check: not shaped => error, counted, fallback kept; valid => exact <<days, second of day, nanosecond>>; never a panic. The oracle is the TLA+ text, not a second Go implementation.",
+   note="Trusts TLC's integer arithmetic and the driver's projection of time.Time to (days, second of day, nanosecond). Not covered: all 10^9 fractions (7-9 digits are sampled), strings outside the enumerated families."),
 }
 NOT_YET = {
 }
